@@ -878,27 +878,33 @@ class TimeDeltaArray(TimeBase):
 # Time deltas
 
 
+def _taiutc_idx(jd1: "np_float", jd2: "np_float", start_delta: "np_float" = 0.0) -> "np_float":
+    """Index of the TAI-UTC table row in force at the given two-part Julian date
+
+    The date is compared with the row starts through the difference `(jd1 - start) + jd2`, so that the
+    precision of the two-part Julian date is kept (a single float Julian date only resolves 40 microseconds). The
+    row in force is the last row that has started. `start_delta` shifts the row starts (used for dates given in TAI).
+    Dates closer than `_TAIUTC_TOLERANCE` before a row start count as on it, so that the rounding of an earlier
+    conversion does not push an epoch on a boundary back into the previous row.
+    """
+    since_start = (np.asarray(jd1, dtype=float)[..., None] - _TAIUTC["start"]) + np.asarray(jd2, dtype=float)[..., None]
+    return np.maximum(np.sum(since_start - start_delta + _TAIUTC_TOLERANCE >= 0, axis=-1) - 1, 0)
+
+
 def delta_tai_utc(time: "TimeArray") -> "np_float":
-    try:
-        idx = [np.argmax(np.logical_and(t.jd >= _TAIUTC["start"], t.jd < _TAIUTC["end"])) for t in time]
-    except TypeError:
-        idx = np.argmax(np.logical_and(time.jd >= _TAIUTC["start"], time.jd < _TAIUTC["end"]))
-
-    delta = _TAIUTC["offset"][idx] + (time.mjd - _TAIUTC["ref_epoch"][idx]) * _TAIUTC["factor"][idx]
-
     if time.scale == "utc":
+        idx = _taiutc_idx(time.jd1, time.jd2)
+        delta = _TAIUTC["offset"][idx] + (time.mjd - _TAIUTC["ref_epoch"][idx]) * _TAIUTC["factor"][idx]
         return delta * Unit.seconds2day
     else:
-        # time.scale is tai
-        tmp_utc_jd = time.tai.jd - delta * Unit.seconds2day
-        tmp_utc_mjd = time.tai.mjd - delta * Unit.seconds2day
+        # time.scale is tai: the rows start TAI-UTC later when expressed in TAI
+        start_mjd = _TAIUTC["start"] - 2_400_000.5
+        start_delta = (_TAIUTC["offset"] + (start_mjd - _TAIUTC["ref_epoch"]) * _TAIUTC["factor"]) * Unit.seconds2day
+        idx = _taiutc_idx(time.jd1, time.jd2, start_delta)
 
-        try:
-            idx = [np.argmax(np.logical_and(t >= _TAIUTC["start"], t < _TAIUTC["end"])) for t in tmp_utc_jd]
-        except TypeError:
-            idx = np.argmax(np.logical_and(tmp_utc_jd >= _TAIUTC["start"], tmp_utc_jd < _TAIUTC["end"]))
-
-        delta = _TAIUTC["offset"][idx] + (tmp_utc_mjd - _TAIUTC["ref_epoch"][idx]) * _TAIUTC["factor"][idx]
+        # TAI-UTC is linear in UTC within a row, solve utc = tai - delta(utc) for delta
+        delta = _TAIUTC["offset"][idx] + (time.mjd - _TAIUTC["ref_epoch"][idx]) * _TAIUTC["factor"][idx]
+        delta = delta / (1 + _TAIUTC["factor"][idx] * Unit.seconds2day)
         return -delta * Unit.seconds2day
 
 
@@ -1698,3 +1704,4 @@ class TimeDeltaDateTime(TimeDeltaFormat):
 # Execute on import
 #######################################################################################################################
 _TAIUTC = read_tai_utc()
+_TAIUTC_TOLERANCE = 1e-14  # [day], about 1 nanosecond
